@@ -98,8 +98,9 @@ SpellingOK(e, s) == KnownExpandoLiteral(e, s) \/ LangMetaVar(e, s) = Spelling(s)
 
 \* --------------------------------------------------------- templates -----
 \* I: items are [v |-> FALSE, c |-> char] (literal) or [v |-> TRUE, name |-> seq, multi |-> BOOLEAN]
-Lit(c) == [v |-> FALSE, c |-> c, name |-> <<>>, multi |-> FALSE]
-Var(n, m) == [v |-> TRUE, c |-> "", name |-> n, multi |-> m]
+Lit(c) == [v |-> FALSE, c |-> c, name |-> <<>>, multi |-> FALSE, len |-> 1]
+\* len = number of template characters the variable occupies (sigils + name)
+Var(n, m, l) == [v |-> TRUE, c |-> "", name |-> n, multi |-> m, len |-> l]
 
 RECURSIVE ValidRun(_, _)
 \* length of the maximal run of meta-variable characters starting at position i
@@ -118,7 +119,7 @@ TemplateItems(s, i) ==
     IF i > Len(s) THEN <<>>
     ELSE IF s[i] # "$" THEN <<Lit(s[i])>> \o TemplateItems(s, i + 1)
     ELSE LET r == SplitFirst(s, i) IN
-         IF r.ok THEN <<Var(r.name, r.multi)>> \o TemplateItems(s, i + r.len)
+         IF r.ok THEN <<Var(r.name, r.multi, r.len)>> \o TemplateItems(s, i + r.len)
          ELSE <<Lit("$")>> \o TemplateItems(s, i + 1)
 
 UsedVarsI(s) == { it.name : it \in { x \in ToSet(TemplateItems(s, 1)) : x.v } }
@@ -141,7 +142,7 @@ TemplateP(s, i) ==
     ELSE LET k == LeadingSigils(Drop(s, i - 1))
              n == ValidRun(s, i + k) IN
          IF n = 0 THEN [j \in 1..k |-> Lit("$")] \o TemplateP(s, i + k)
-         ELSE <<Var(SubSeq(s, i + k, i + k + n - 1), k = 3)>> \o TemplateP(s, i + k + n)
+         ELSE <<Var(SubSeq(s, i + k, i + k + n - 1), k = 3, k + n)>> \o TemplateP(s, i + k + n)
 
 RECURSIVE TemplateJudged(_, _)
 TemplateJudged(s, i) ==
